@@ -1,5 +1,5 @@
 """C19 - secret material never appears on diagnostic channels."""
-import base64, ctypes, hashlib, os, tempfile
+import base64, ctypes, hashlib, os, struct, tempfile
 from hypothesis import strategies as st
 from vlib.core import Prop
 from vlib import build as B
@@ -7,6 +7,7 @@ from vlib.ffi import lib, Buf, obj, sizeof, shim, helper, const
 from vlib.ref import sm2 as M
 from vlib.ref import sigder as D
 from vlib.ref import x509 as X
+from vlib.ref import sm4ks
 from vlib.sm2io import key_in
 from vlib import pki, net
 
@@ -146,6 +147,12 @@ def _handshake(ctx, proto, mutual, defect, seed, secrets):
             if proto == "tls13":
                 secrets[nm + " client_write_iv"] = ep.field("client_write_iv")
                 secrets[nm + " server_write_iv"] = ep.field("server_write_iv")
+                # the raw traffic keys are not stored, only their SM4 key schedule: invert it
+                if sm4ks.OK:
+                    for f in ("client_write_key", "server_write_key"):
+                        rk = struct.unpack("<32I", ep.field(f)[:128])
+                        if any(rk):
+                            secrets[nm + " " + f] = sm4ks.key_from_round_keys(rk)
             # ephemeral private scalars / signature nonces (32-byte draws) and pre-master secrets (>= 40 byte draws) are
             # secret; 28-byte draws are hello randoms and 16-byte draws are explicit record IVs, both public on the wire
             dr = ep.do("draws")
